@@ -4,6 +4,7 @@ mod bridge;
 mod gen;
 mod golden;
 mod interp;
+mod jetmodel;
 mod layout;
 mod pipeline;
 mod props;
@@ -69,6 +70,10 @@ fn real_main() {
     }
     match cmd.as_str() {
         "c01" => props::c01::run(&mut cx),
+        "c07" => props::c07::run(&mut cx),
+        "c11" => props::c11::run(&mut cx),
+        "c13" => props::c13::run(&mut cx),
+        "c15" => props::c15::run(&mut cx),
         other => {
             eprintln!("unknown command {other}");
             std::process::exit(2);
